@@ -1,5 +1,6 @@
 import Stingray.Extracted.C05
 import Stingray.Model.Recfm
+import Stingray.Tie.Pinned
 /-!
 # Tie for C05: the refill statement extracted from `estruct.RECFM_N` is the model's `stepN`.
 Rebuilt on every run against the freshly generated `Extracted/C05.lean`.
@@ -32,5 +33,9 @@ theorem step_eq (s : St) (used : Nat) (h1 : used ≤ s.buf.length) (h2 : s.buf.l
   simp only [stepExtracted, stepN, pyRead, hk, hr, List.length_drop]
   have : ¬ (((cap - (s.buf.length - used) : Nat) : Int) < 0) := by omega
   simp only [this, if_false, Int.toNat_natCast]
+
+/-- the four readers' loops (`record_iter`, `rdw_iter`, `bdw_iter`, `_data_iter`, `used`) are the reviewed ones the models
+`readN / readF / readV / readVB` were written from -/
+theorem recfmSrcs_pinned : recfmSrcs = Stingray.Tie.Pinned.recfmSrcs := by rfl
 
 end Stingray.Tie.C05
